@@ -193,7 +193,7 @@ Print Assumptions C09_vi_yy_pure.
 (* pasting CHARACTERS data n times (p, P, yank with argument n) inserts exactly
    n copies, unchanged, at the position the mode defines (cursor for P / emacs,
    one past the cursor, clamped, for p) and changes nothing else.  For any n:
-   n <= 0 inserts nothing. *)
+   n < 1 returns the document unchanged (zero copies). *)
 Theorem C09_paste_characters_n : forall t c data mode n,
   0 <= c <= len t -> ctype data = CHARACTERS ->
   mode = EMACS \/ mode = VI_BEFORE \/ mode = VI_AFTER ->
@@ -205,20 +205,36 @@ Theorem C09_paste_characters_n : forall t c data mode n,
 Proof. exact doc_paste_chars_n. Qed.
 Print Assumptions C09_paste_characters_n.
 
-(* dd: the remaining text is NOT always the remaining lines (finding C09-F4) *)
-Theorem C09_vi_dd_lines_refuted :
-  exists s arg, Inv (sb s) /\ 1 <= arg /\
-    exists s', vi_dd s arg = (0, s') /\ btext (sb s') <> dd_spec s arg.
-Proof. exact vi_dd_refuted. Qed.
-Print Assumptions C09_vi_dd_lines_refuted.
+(* dd (after fix deb887f), for every document, cursor and count: the text that
+   remains is exactly the remaining lines and the register holds exactly the
+   removed lines with type LINES.  (Was refuted before the fix: finding C09-F4.) *)
+Theorem C09_vi_dd_lines : forall s arg,
+  exists s', vi_dd s arg = (0, s') /\
+    btext (sb s') = dd_spec s arg /\
+    ring_get (sring s') =
+      mkclip (join [NL] (slice2 (lines (cur_doc s)) (cursor_position_row (cur_doc s))
+                                (cursor_position_row (cur_doc s) + arg))) LINES.
+Proof. exact vi_dd_exact. Qed.
+Print Assumptions C09_vi_dd_lines.
 
-(* visual block: d / y do NOT store the selected block (finding C09-F3) *)
-Theorem C09_vi_visual_block_operator_refuted :
-  exists s sel, Inv (sb s) /\ snd sel = BLOCK /\ 0 <= fst sel <= len (btext (sb s)) /\
-    ctext (ring_get (sring (snd (vi_visual s sel 1 0)))) <>
-    ctext (snd (doc_cut_selection (cur_doc s) sel true)).
-Proof. exact visual_block_operator_refuted. Qed.
-Print Assumptions C09_vi_visual_block_operator_refuted.
+(* visual block (after fixes e0cf816 + f3ffc71): the operators d / y / "rd / "ry
+   (TextObject.cut) store exactly the block that x (Buffer.cut_selection)
+   stores, for every text and every two distinct corners.  (Was refuted: C09-F3.) *)
+Theorem C09_vi_visual_block_operator : forall t cur orig nd data,
+  orig <> cur ->
+  tobj_cut (mkdoc t cur) (orig - cur) 0 TBLOCK = Some (nd, data) ->
+  data = snd (doc_cut_selection (mkdoc t cur) (orig, BLOCK) true).
+Proof. exact visual_block_operator_stores_block. Qed.
+Print Assumptions C09_vi_visual_block_operator.
+
+(* ... the hypothesis orig <> cur is needed: a block of one cell is an "empty
+   range" for TextObject.cut, so d / y do nothing while x cuts it (finding C09-F5) *)
+Theorem C09_vi_visual_block_single_cell_refuted :
+  exists s sel, Inv (sb s) /\ snd sel = BLOCK /\ fst sel = bcur (sb s) /\
+    sring (snd (vi_visual s sel 1 0)) = sring s /\
+    ctext (snd (doc_cut_selection (cur_doc s) sel true)) <> [].
+Proof. exact visual_block_single_cell_refuted. Qed.
+Print Assumptions C09_vi_visual_block_single_cell_refuted.
 
 (* the hypotheses are satisfiable: C-k on "ab\ncd" at 0 kills "ab" *)
 Example C09_example_kill_line :
